@@ -2,6 +2,7 @@ import Wal.Props.C05
 import Wal.Props.C06
 import Wal.Props.C04
 import Wal.Model.Wire
+import Wal.Lemmas.Bal
 /-!
 # C17 — Completed evaluations leave a balanced context; run starts fresh
 
@@ -124,6 +125,57 @@ theorem history_from_fresh_at_global (m : Mode) (n : Nat) (forms : List Sx) (st'
     (h : runForms (walEval m n) Wire.initSt forms = some st') : st'.env = 0 ∧ Glob.Ok st' := by
   obtain ⟨h1, h2⟩ := history_env_balanced m n forms Wire.initSt st' init_ok h
   exact ⟨h2, h1⟩
+
+/-! ## captured scope, captured group, saved positions: every evaluation that does not execute `set-scope` / `unset-scope` -/
+
+/-- **the balance theorem**: an evaluation that completes without executing one of the two operators that exist to
+change the captured scope persistently (`Bal.evalR` is the evaluator with `set-scope` / `unset-scope` switched off;
+what it completes, `eval` completes with the same result) leaves the captured scope, the captured group and the stack
+of saved trace positions as they were — for every expression, every nesting of `in-scope`, `in-group(s)`,
+`all-scopes`, `@`, `find`, `find/g`, `whenever`, calls, macros and `eval`, by induction on the fuel through every
+operator (`Bal.evalR_B`) -/
+theorem eval_balanced (n : Nat) (st st' : St) (e v : Sx) (h : Bal.evalR n st e = .ok (v, st')) :
+    eval n st e = .ok (v, st') ∧ st'.scope = st.scope ∧ st'.group = st.group ∧ st'.tc.idxStack = st.tc.idxStack :=
+  ⟨Bal.evalR_sub n st e (v, st') h, Bal.evalR_B n st e v st' h⟩
+
+/-- the same for a top-level evaluation through the passes: from the top-level context back to the top-level context
+(environment by `Glob.walEval_P`, the rest by `Bal.walEvalR_B`) -/
+theorem toplevel_balanced (m : Mode) (n : Nat) (st st' : St) (e v : Sx) (ht : TopLevel st) (hok : Glob.Ok st)
+    (h : Bal.walEvalR m n st e = .ok (v, st')) : walEval m n st e = .ok (v, st') ∧ TopLevel st' ∧ Glob.Ok st' := by
+  have hsub := Bal.walEvalR_sub m n st e (v, st') h
+  obtain ⟨b1, b2, b3⟩ := Bal.walEvalR_B m n st st' e v h
+  obtain ⟨p1, p2, _⟩ := Glob.walEval_P m n st st' e v hsub hok
+  obtain ⟨t1, t2, t3, t4⟩ := ht
+  exact ⟨hsub, ⟨p2.trans t1, b1.trans t2, b2.trans t3, b3.trans t4⟩, p1⟩
+
+/-- **after any history of completed top-level evaluations (none of which executes `set-scope` / `unset-scope`) a
+fresh interpreter is in the top-level context again**: the premise `Balanced` of `balanced_history` is a theorem -/
+theorem history_balanced (m : Mode) (n : Nat) :
+    ∀ (forms : List Sx) (st st' : St), TopLevel st → Glob.Ok st → runForms (Bal.walEvalR m n) st forms = some st' →
+      TopLevel st' ∧ Glob.Ok st' := by
+  intro forms
+  induction forms with
+  | nil => intro st st' ht hok hr; simp [runForms] at hr; subst hr; exact ⟨ht, hok⟩
+  | cons e r ih =>
+    intro st st' ht hok hr
+    simp only [runForms] at hr
+    cases he : Bal.walEvalR m n st e with
+    | error er => simp [he] at hr
+    | ok p =>
+      obtain ⟨v, st1⟩ := p
+      simp only [he] at hr
+      obtain ⟨_, t1, o1⟩ := toplevel_balanced m n st st1 e v ht hok he
+      exact ih st1 st' t1 o1 hr
+
+theorem init_toplevel : TopLevel Wire.initSt := ⟨rfl, rfl, rfl, rfl⟩
+
+-- non-vacuity: a program that nests a let, a call, a group context and a quasi-quoted `eval` completes under the
+-- restricted evaluator (kernel evaluation on the fresh interpreter state)
+example : (Bal.walEvalR {} 40 Wire.initSt
+    (.list true [.op .LET, .list true [.list true [.sym "x" Option.none, .int 1]],
+      .list true [.op .IN_GROUP, .str "g.", .list true [.list true [.op .FN, .list true [.sym "y" Option.none],
+        .list true [.op .EVAL, .list true [.op .QUASIQUOTE, .list true [.op .ADD, .unq (.sym "x" Option.none), .sym "y" Option.none]]]], .int 2]]])).toOption.map
+    (fun r => (match r.1 with | .int i => i | _ => -1, r.2.env, r.2.scope, r.2.group)) = some (3, 0, "", "") := by decide +kernel
 
 /-- **new definitions are global**: in the top-level context `define` binds in frame 0 -/
 theorem define_global_at_top (rec : St → Sx → Res) (st st1 st2 : St) (n : String) (k : Option Nat) (e v : Sx)
